@@ -24,8 +24,8 @@ PI-lite restriction of the value domain (`Data = DataDomain<IntervalDomain>`):
   marked `-- lump` and avoided by the generator,
 * the runtime memory image is empty (as in `verif_harness::ir::project_x64`): reads of global
   constants fail.
-Everything else (sizes, the top flag, the treatment of absolute/relative/top parts, the signed
-overflow checks of `Interval::add/sub/signed_mul`, `x XOR x`, cell clearing in `MemRegion::add`,
+Everything else (sizes, the top flag, the treatment of absolute/relative/top parts, the exact
+(wrapping) arithmetic of `Interval::add/sub/signed_mul/int_2_comp` on singletons, `x XOR x`, cell clearing in `MemRegion::add`,
 read-after-write only for equal sizes, …) mirrors the Rust code function by function.
 
 The second half is the SPECIFICATION: `cp…`, a constant propagation written against the P-Code
@@ -97,44 +97,41 @@ def isSingle : Itv → Bool
   | single _ => true
   | _ => false
 
-/-- `IntervalDomain::add` / `Interval::add`: a signed overflow of a bound gives `Top`; `Top` plus
-anything overflows at one of its bounds (or adds zero). -/
+/-- `IntervalDomain::add` / `Interval::add` (repaired): two singletons give the singleton of the wrapping
+sum, also when it overflows as a signed addition (different widths make the real code panic; the model
+answers `Top`); otherwise a signed overflow of a bound gives `Top`; `Top` plus anything overflows at
+one of its bounds. -/
 def add (a b : Itv) : Itv :=
   match a, b with
   | single x, single y =>
-    match addChecked x y with
-    | some r => single r
-    | none => many x.bytes true
+    if h : x.w = y.w then single ⟨x.w, x.v + h ▸ y.v⟩ else many x.bytes true
   | _, _ => many a.bytes (a.isTopC || b.isTopC)
 
-/-- `IntervalDomain::sub` / `Interval::sub` -/
+/-- `IntervalDomain::sub` / `Interval::sub` (repaired like `add`) -/
 def sub (a b : Itv) : Itv :=
   match a, b with
   | single x, single y =>
-    match subChecked x y with
-    | some r => single r
-    | none => many x.bytes true
+    if h : x.w = y.w then single ⟨x.w, x.v - h ▸ y.v⟩ else many x.bytes true
   | _, _ => many a.bytes (a.isTopC || b.isTopC)
 
 def isZero : Itv → Bool
   | single x => x.toNat == 0
   | _ => false
 
-/-- `IntervalDomain::signed_mul` / `Interval::signed_mul`: wider than 64 bit → `Top`; any overflowing
-product of bounds → `Top`; a factor `[0,0]` makes all four products zero. -/
+/-- `IntervalDomain::signed_mul` / `Interval::signed_mul` (repaired): wider than 64 bit → `Top`; two
+singletons give the singleton of the wrapping product, also when it overflows; otherwise any
+overflowing product of bounds → `Top`; a factor `[0,0]` makes all four products zero. -/
 def mul (a b : Itv) : Itv :=
   if 8 * a.bytes > 64 then many a.bytes true else
   match a, b with
   | single x, single y =>
-    match mulFlag x y with
-    | some (r, false) => single r
-    | _ => many x.bytes true
+    if h : x.w = y.w then single ⟨x.w, x.v * h ▸ y.v⟩ else many x.bytes true
   | _, _ =>
     if a.isZero || b.isZero then single (bvZero a.bytes)
     else many a.bytes (a.isTopC || b.isTopC)
 
-/-- `IntervalDomain::shift_left`: a singleton amount `< width` multiplies with `1 << amount` (signed
-overflow → `Top`), a singleton amount `≥ width` gives zero, anything else `Top`. -/
+/-- `IntervalDomain::shift_left`: a singleton amount `< width` multiplies with `1 << amount` (exact on
+singletons of at most 64 bit), a singleton amount `≥ width` gives zero, anything else `Top`. -/
 def shiftLeft (a b : Itv) : Itv :=
   match b with
   | single y =>
@@ -170,7 +167,7 @@ def unOp (op : UnOpType) (a : Itv) : Itv :=
   match op with
   | .Int2Comp =>
     match a with
-    | single x => if x.v == BitVec.intMin x.w then many x.bytes true else single ⟨x.w, -x.v⟩
+    | single x => single ⟨x.w, -x.v⟩          -- repaired: also `-MIN = MIN`
     | many n t => many n t
   | .IntNegate =>
     match a with
@@ -202,7 +199,8 @@ def cast (op : CastOpType) (size : Nat) (a : Itv) : Itv :=
       match Impl.cast op size x with
       | .val r => single r
       | _ => many size true
-    | many _ _ => many size false
+    | many n _ =>       -- repaired: `Top` if the bit length of the operand is not a signed value of the result
+      many size (decide (8 * size ≤ 64) && (8 * n) >>> (8 * size - 1) != 0)
   | _ => many size true
 
 /-- `IntervalDomain::subpiece`: `subpiece_higher(low_byte)` if `low_byte ≠ 0`, then
@@ -570,8 +568,10 @@ def check467 (proj : Project) (symbols : List String) : List String :=
 `cp`: "the block computes the value as a constant from constants alone", written against the P-Code
 reference semantics. A symbolic value is a constant or the entry stack pointer plus a constant.
 `strict = true` additionally demands that no `IntAdd/IntSub/IntMult/IntLeft/Int2Comp` step overflows as
-a SIGNED operation — the sub-fragment in which the real code keeps constants (see Props.lean and the
-known finding `signed-overflow-top`).
+a SIGNED operation — before the repair of `Interval::add/sub/signed_mul/int_2_comp` the only sub-fragment
+in which the real code kept constants (fixed finding `signed-overflow-top`). The theorems are stated for
+the full fragment (`strict = false`); the driver still evaluates `strict = true` to count how many of the
+generated constant computations overflow (verdict tag `overflow`).
 -/
 
 inductive SVal where
